@@ -428,7 +428,7 @@ def _group_cmds(cls):
         else:
             return ERR
         rest = a[i:]
-        if len(rest) != 2 or rest[1] != b">":
+        if len(rest) != 2:
             return ERR
         key = rest[0]
         e, grp, err = self._grp(db, key, g)
@@ -436,6 +436,20 @@ def _group_cmds(cls):
             return err
         if e is None or grp is None:
             return ERR
+        if rest[1] != b">":
+            # history read: the entries already delivered to THIS consumer and not yet acknowledged, after the
+            # given ID. Nothing moves: not the group's last-delivered ID, not the ownership of any entry.
+            after = (0, 0) if rest[1] == b"0" else parse_id(rest[1])
+            if after is None:
+                return ERR
+            mine = sorted(x for x, owner in grp.pending.items() if owner == cons and x > after and x in e.v.entries)
+            if cnt:
+                mine = mine[:cnt]
+            if cons not in grp.consumers:
+                grp.maybe.add(cons)
+            if not mine:
+                return OneOf([[key, []]], [], NULL_ARRAY, None)
+            return [[key, [_entry_reply(x, e.v.entries[x]) for x in mine]]]
         ids = [x for x in e.v.ids() if x > grp.last]
         if cnt:
             ids = ids[:cnt]
